@@ -287,7 +287,7 @@ func (c *Chain) Project() *State {
 func (c *Chain) ProjectCtx(ctx sdk.Context) *State {
 	cdc := c.App.AppCodec()
 	st := &State{
-		Height: c.Height, Now: c.Now, Phase: c.Phase, Params: c.Params, Bal: map[string]int64{},
+		Height: c.Height, Now: c.Now, Phase: c.Phase, Params: c.storedParams(ctx), Bal: map[string]int64{},
 		Defs: []DefRec{}, Bind: []BindRec{}, POwner: []PORec{}, OProv: [][2]string{}, OBind: [][3]string{},
 		WAddr: []WARec{}, Ctx: []CtxRec{}, NewQ: [][2]int64{}, NewQH: []QHRec{}, ExpQ: [][2]int64{}, ExpQH: []QHRec{},
 		Req: []ReqRec{}, ActId: [][4]int64{}, ActBind: []ABRec{}, Resp: []RespRec{}, Vol: []VolRec{},
